@@ -26,11 +26,14 @@ Explained(e) ==
   /\ e.obs.family # "internal"                                       \* never an internal error
   /\ e.obs.ok = Model(e).ok                                          \* valid inputs succeed, invalid ones fail
   /\ (e.obs.ok => e.obs.files = 8)                                   \* never a partial file set
+  \* the wiring statements scanned from the generated source are exactly those the model prescribes
+  /\ (e.scan /\ e.obs.ok => AsSet(e.wiring) = WiringOf(e.decls, CfgOf(e.cfg)))
 
 TInit == t \in DOMAIN Traces /\ l = 1
 TNext == /\ l <= Len(Ev) /\ l' = l + 1 /\ t' = t
          /\ IF Explain THEN (l < Len(Ev) \/ PrintT(<<"EXPECT", ToJson(
                  [ok |-> Model(Ev[l]).ok, stage |-> Model(Ev[l]).stage,
+                  wiring |-> IF Ev[l].scan /\ Model(Ev[l]).ok THEN WiringOf(Ev[l].decls, CfgOf(Ev[l].cfg)) ELSE {},
                   kind |-> IF ConfigRejected(CfgOf(Ev[l].cfg)) THEN "config" ELSE BuildOutcome(Ev[l].decls, CfgOf(Ev[l].cfg)).kind])>>))
             ELSE Explained(Ev[l])
 TSpec == TInit /\ [][TNext]_vars
